@@ -222,23 +222,26 @@ func (p *pollTerm) Err() error {
 
 // exactColoring checks DsaturExact with a nil terminator, with a terminator
 // that never fires and with cancellation at every poll.
-func exactColoring(c *chk, b *built, chi int) (polls int) {
+func exactColoring(c *chk, b *built, chi int, lean bool) (polls int) {
 	g := b.g.(graph.Undirected)
 	lastCancelSuboptimal = false
-	heur, _, _ := coloring.Dsatur(g, nil)
-	k, colors, err := coloring.DsaturExact(nil, g)
-	if err != nil {
-		c.failf("DsaturExact(nil): error %v", err)
-		return 0
-	}
-	if checkProper(c, "DsaturExact(nil)", b, nil, k, colors) >= 0 && k != chi {
-		c.failf("DsaturExact(nil): k=%d, chromatic number by exhaustive colouring is %d", k, chi)
-	}
-	if c.failed() {
-		return 0
+	// lean (the thorough sweep over all 7-node graphs): the nil-terminator
+	// run is skipped; the never-cancelled terminator run checks the same result.
+	if !lean {
+		k, colors, err := coloring.DsaturExact(nil, g)
+		if err != nil {
+			c.failf("DsaturExact(nil): error %v", err)
+			return 0
+		}
+		if checkProper(c, "DsaturExact(nil)", b, nil, k, colors) >= 0 && k != chi {
+			c.failf("DsaturExact(nil): k=%d, chromatic number by exhaustive colouring is %d", k, chi)
+		}
+		if c.failed() {
+			return 0
+		}
 	}
 	pt := newPollTerm(0)
-	k, colors, err = coloring.DsaturExact(pt, g)
+	k, colors, err := coloring.DsaturExact(pt, g)
 	if err != nil {
 		c.failf("DsaturExact(never cancelled): error %v", err)
 		return 0
@@ -247,6 +250,10 @@ func exactColoring(c *chk, b *built, chi int) (polls int) {
 		c.failf("DsaturExact(never cancelled): k=%d, chromatic number is %d", k, chi)
 	}
 	polls = pt.polls
+	heur := chi
+	if polls > 0 {
+		heur, _, _ = coloring.Dsatur(g, nil)
+	}
 	// the search order is not deterministic (map iteration inside gonum), so
 	// the number of polls varies a little from run to run: go one past it.
 	for j := 1; j <= min(polls+1, 64) && !c.failed(); j++ {
@@ -290,12 +297,12 @@ func genUndColor(g *vlib.G) {
 				for v := 0; v < nVariants; v++ {
 					// all partial colourings on the deterministic ascending
 					// variant (n=6: under the identity map only); a rotating
-					// third (n=5) or sixth (n=6) of them on the other combinations.
+					// third (n=5) or twelfth (n=6) of them on the other combinations.
 					sub := ps
 					if (s.n == 5 && v != vOrdAsc) || (s.n >= 6 && !(v == vOrdAsc && idk == idIdentity)) {
 						stride := 3
 						if s.n >= 6 {
-							stride = 6
+							stride = 12
 						}
 						sub = nil
 						for pi := range ps {
@@ -332,7 +339,7 @@ func genUndColorExact(g *vlib.G) {
 				for v := 0; v < nVariants; v++ {
 					b := build(&s, idk, v)
 					runSticky(t, "und-color-exact", key, idk, v, func(c *chk) {
-						maxPolls = max(maxPolls, exactColoring(c, b, chi))
+						maxPolls = max(maxPolls, exactColoring(c, b, chi, false))
 					})
 				}
 			}
@@ -397,12 +404,12 @@ func genUndColorHard(g *vlib.G) {
 					}
 					b := build(&s, idk, v)
 					runSticky(t, "und-color-hard", key, idk, v, func(c *chk) {
-						if v == vOrdAsc || v == vOrdDesc {
+						if all && (v == vOrdAsc || v == vOrdDesc) {
 							if k, _, _ := coloring.Dsatur(b.g.(graph.Undirected), nil); k > chi {
 								improved = true
 							}
 						}
-						maxPolls = max(maxPolls, exactColoring(c, b, chi))
+						maxPolls = max(maxPolls, exactColoring(c, b, chi, !all))
 						if lastCancelSuboptimal {
 							cancelledWithBest = true
 						}
